@@ -33,6 +33,7 @@ type Fabric struct {
 	pending   []*pendingNotify
 	notifySeq int
 	Wire      []*WireMsg
+	Resets    map[string]string // stream id -> why it was reset (first reason)
 	handler   *gsmsgv2.MessageHandler
 	// Partitioned pairs: every connect and write fails.
 	Partition map[string]bool
@@ -400,12 +401,31 @@ func (s *SimStream) signal() {
 	}
 }
 
+func (f *Fabric) noteReset(id, why string) {
+	f.mu.Lock()
+	if f.Resets == nil {
+		f.Resets = map[string]string{}
+	}
+	if _, ok := f.Resets[id]; !ok {
+		f.Resets[id] = why
+	}
+	f.mu.Unlock()
+}
+
+// ResetWhy reports why a stream was reset ("" = it was not).
+func (f *Fabric) ResetWhy(id string) string {
+	f.mu.Lock()
+	defer f.mu.Unlock()
+	return f.Resets[id]
+}
+
 func (s *SimStream) doReset(why string) {
 	s.mu.Lock()
 	if !s.reset {
 		s.reset = true
 		s.inflight = nil
 		close(s.resetCh)
+		s.f.noteReset(s.id, why)
 		s.f.w.Effect("stream %s reset (%s)", s.id, why)
 	}
 	s.mu.Unlock()
